@@ -230,6 +230,9 @@ def mon_c03(ex, info, col):
                 if len(assigned) > 1:
                     out.append(V("C03", "C03:%s-assigned-to-several-tasks" % kind, ex, {"t": t, "phase": ph, kind: rn, "tasks": assigned}))
                 for tn in assigned:
+                    if tn not in tasks:
+                        out.append(V("C03", "C03:%s-lists-a-task-that-is-not-part-of-its-project" % kind, ex, {"t": t, "phase": ph, kind: rn, "task": tn}))
+                        continue
                     if rn not in tasks[tn][idx]:
                         out.append(V("C03", "C03:%s-lists-task-but-task-does-not-list-it" % kind, ex,
                                      {"t": t, "phase": ph, kind: rn, "task": tn, "task_side": tasks[tn][idx]}))
@@ -248,6 +251,9 @@ def mon_c03(ex, info, col):
                     out.append(V("C03", "C03:%s-listed-twice-on-task" % kind, ex, {"t": t, "phase": ph, "task": tn, "held": held}))
                 for rn in held:
                     col.checks["c03.two-way"] += 1
+                    if rn not in sn[key]:
+                        out.append(V("C03", "C03:task-holds-a-%s-that-is-not-part-of-its-project" % kind, ex, {"t": t, "phase": ph, "task": tn, kind: rn}))
+                        continue
                     if tn not in sn[key][rn][1]:
                         out.append(V("C03", "C03:task-lists-%s-but-%s-does-not-list-task" % (kind, kind), ex,
                                      {"t": t, "phase": ph, "task": tn, kind: rn, "resource_side": sn[key][rn][1]}))
@@ -280,6 +286,9 @@ def mon_c03(ex, info, col):
                     out.append(V("C03", "C03:logged-%s-WORKING-iff-holding-and-present-broken" % kind, ex,
                                  {kind: rn, "k": k, "state": int(r.state_record_list[k]), "assigned": a, "absent": absent}))
                 for tn in a:
+                    if tn not in info.tasks:
+                        out.append(V("C03", "C03:%s-logged-with-a-task-that-is-not-part-of-its-project" % kind, ex, {kind: rn, "k": k, "task": tn}))
+                        continue
                     rec = getattr(p.byname[tn], tkey)
                     if k < len(rec) and rec[k] is not None and rn not in rec[k]:
                         out.append(V("C03", "C03:logs-disagree-%s-lists-task" % kind, ex, {kind: rn, "k": k, "task": tn, "task_side": rec[k]}))
@@ -290,6 +299,9 @@ def mon_c03(ex, info, col):
                 if rec[k] is None:
                     continue
                 for rn in rec[k]:
+                    if rn not in names:
+                        out.append(V("C03", "C03:task-logged-with-a-%s-that-is-not-part-of-its-project" % kind, ex, {"task": tn, "k": k, kind: rn}))
+                        continue
                     r = p.byname[rn]
                     if k < len(r.assigned_task_id_record) and r.assigned_task_id_record[k] is not None and tn not in r.assigned_task_id_record[k]:
                         out.append(V("C03", "C03:logs-disagree-task-lists-%s" % kind, ex, {"task": tn, "k": k, kind: rn}))
